@@ -84,7 +84,8 @@ func init() {
 			var baseOut *GenOut
 			sw.run([]string{canon}, []string{"-a"}, false, false, func(o *GenOut) { base, baseFiles = outcome(o); baseOut = o })
 			if baseOut.Res.Exit != 0 {
-				ev.Inconsistent("seed %s is not accepted by gocc: exit %d %s %s", seed.Name, baseOut.Res.Exit, baseOut.Res.Stdout, baseOut.Res.Stderr)
+				// a grammar gocc refuses (e.g. an accept/reduce conflict): every respelling must be refused the same way
+				r.Add("seeds_refused_by_gocc", 1)
 			}
 			// the seed as written is itself a respelling of its canonical form
 			rs := append([]gram.Respelling{{Kind: "as-written", Text: seed.Text}}, gram.Respellings(toks)...)
